@@ -33,6 +33,11 @@ class DistConstraintBuilder(ConstraintOverrideVisitor):
         builder = DistConstraintBuilder(randstate)
         fm.accept(builder)
         
+    def visit_constraint_block(self, c):
+        # A block that is switched off takes no part in the call
+        if c.enabled:
+            super().visit_constraint_block(c)
+
     def visit_constraint_dist(self, c):
         # We replace the dist constraint with an equivalent 
         # set of hard and soft constraints
